@@ -18,6 +18,7 @@ def scenarios(tier):
     for a1 in (0, 1, 2):
         for a2 in (a1, 1, 2) if a1 == 0 else (1, 2):
             if a2 < a1: continue
+            if a1 == 2 and a2 == 2 and tier == 'quick': continue      # two coroutine-protocol contenders: ~1600 events, thorough tier only
             out.append(scen('free_%s_%s' % (ACQ[a1], ACQ[a2]), 2, T1_ACQ=a1, T2_ACQ=a2, T1_REL=a1 % 3, T2_REL=(a2 + 1) % 3))
     if tier != 'quick':
         # owner + two requesters, three threads
@@ -41,7 +42,7 @@ def fifo_scenarios(tier):
 
 
 def plan(tier):
-    return [dict(engine='e2', name='mutex_sc', tu='C07.cpp', mode='sc', scenarios=scenarios(tier), opts={'loop_bound': 3, 'rec_bound': 2}, timeout_s=600,
+    return [dict(engine='e2', name='mutex_sc', tu='C07.cpp', mode='sc', scenarios=scenarios(tier), opts={'loop_bound': 3, 'rec_bound': 2}, timeout_s=600 if tier == 'quick' else 2400,
                  space='contender flavours {try_lock, blocking lock().wait(), coroutine protocol} x release flavours {ownership destructor, release() discarded, release()+clear()}; '
                        'owner-releases-while-requested and free-mutex contention; thorough adds 3 threads and 2 rounds',
                  bounds='2 threads x 1 round (quick); 3 threads x 1 round and 2 threads x 2 rounds (thorough); CAS retries / queue walks <= 4 iterations (bound-exceeded events are queried: a reachable one is reported as "bound insufficient"); sequentially consistent interleavings at instruction granularity',
